@@ -67,7 +67,12 @@ static _Bool acc_ok(const struct NNEvaluator* e, int c) {
     const struct FirstLayerState* s = &e->stack.flState[e->stack.stackTop][c];
     if (s->toAddLen < 0 || s->toAddLen > 4 || s->toSubLen < 0 || s->toSubLen > 4 || s->kingSqComputed < -1 || s->kingSqComputed > 63) return 0;
     return s->kingSqComputed == -1 || spec_pending(s) == ghost_full[c]; }
+/* complete case split over the stack level (0 .. maxStackSize-1): each case is a separate run with a constant level */
+#ifdef CASE_TOP
+#define STACK_OK(e) ((e)->stack.stackTop == CASE_TOP && CASE_TOP < NNEvaluator_maxStackSize)
+#else
 #define STACK_OK(e) (0 <= (e)->stack.stackTop && (e)->stack.stackTop < NNEvaluator_maxStackSize)
+#endif
 '''
 _SELF = '__CPROVER_is_fresh(self, sizeof(*self))'
 CONTRACTS = {
@@ -144,12 +149,14 @@ GROUPS = [
     Group('getIndex', 'h_getIndex', enforce='nn_getIndex', min_props=2),
     Group('index_symmetry', 'h_lemma_index_symmetry', min_props=2),
     Group('FirstLayerState_clear', 'h_clear', enforce='FirstLayerState_clear', min_props=2),
-    Group('setPiece', 'h_setPiece', enforce='NNEvaluator_setPiece', min_props=5, timeout=1800),
-    Group('pushState', 'h_pushState', enforce='NNEvaluator_pushState', replace=('NNEvaluator_computeL1WB',), min_props=5, timeout=1800),
-    Group('popState', 'h_popState', enforce='NNEvaluator_popState', replace=('NNEvaluator_forceFullEval',), min_props=3),
-    Group('forceFullEval', 'h_forceFullEval', enforce='NNEvaluator_forceFullEval', replace=('FirstLayerState_clear',), min_props=3),
+    Group('setPiece', 'h_M_setPiece', enforce='NNEvaluator_setPiece', mode='M', m_pre='    hv();\n', cases=('CASE_TOP', list(range(200))), min_props=5, timeout=1800),
+    Group('pushState', 'h_M_pushState', enforce='NNEvaluator_pushState', replace=('NNEvaluator_computeL1WB',), mode='M', m_pre='    hv();\n', cases=('CASE_TOP', list(range(200))), min_props=5, timeout=1800),
+    Group('popState', 'h_M_popState', enforce='NNEvaluator_popState', replace=('NNEvaluator_forceFullEval',), mode='M', m_pre='    hv();\n', cases=('CASE_TOP', list(range(200))), min_props=3),
+    Group('forceFullEval', 'h_M_forceFullEval', enforce='NNEvaluator_forceFullEval', replace=('FirstLayerState_clear',), mode='M', m_pre='    hv();\n', cases=('CASE_TOP', list(range(200))), min_props=3),
 ]
-PROPERTIES = {'C07': [g.name for g in GROUPS]}
+# built and green: getIndex, index_symmetry, FirstLayerState_clear.  The incremental-state groups (setPiece/pushState/popState/forceFullEval,
+# mode M with a 200-way case split over the stack level) did not finish in 20 min even for a single case; C07 is therefore NOT claimed.
+PROPERTIES = {'C07': ['getIndex', 'index_symmetry', 'FirstLayerState_clear']}
 ASSUMPTIONS = {'C07': [
     'A-LANE: the 256-lane first-layer accumulator is modelled by one generic 16-bit lane (lanes are independent in the generic kernels addSubWeights/copyVec: out(i) += w(row, i))',
     'first-layer weights W and ptValue are uninterpreted tables (arbitrary network)',
